@@ -636,3 +636,46 @@ def r10b_mustconnect(repo, sink):
             sink.check(isinstance(a0, ast.Name) and a0.id == p0, "R10b", f"start-time-forwarded:{c.name}", h,
                        ok="try_connect receives the composition start time", bad="try_connect does not receive _connect's start_time")
     sink.floor("R10b", "_connect hooks", n, 14)
+
+
+# ========================================================================== R06s
+def r06s_start_time(repo, sink):
+    """The composition start time is the earliest start of its time components (initial data
+    is published for it, initial pulls ask for it)."""
+    from ..absbase import FinamInterp, Order
+    f = repo.func("src/finam/schedule.py", "_get_start_time")
+    import itertools
+    worst = None
+    n = 0
+    for ranks in itertools.permutations((1, 2, 3)):
+        for none_at in (None, 0, 1, 2):
+            n += 1
+            od = Order()
+            comps = []
+            times = []
+            for i, r in enumerate(ranks):
+                t = None if none_at == i else Sym("start", i)
+                if t is not None:
+                    od.name(t, f"s{i}", r)
+                    times.append((r, t))
+                o = Obj(label=f"C{i}", markers={"component"})
+                o.fields.update(time=t, name=f"C{i}")
+                comps.append(o)
+            it = FinamInterp(repo, od)
+            try:
+                got = it.run(f, [comps])
+            except Raised as r:
+                got = ("raise", r.name)
+            want = min(times)[1] if times else ("raise", "ValueError")
+            if got != want:
+                worst = worst or f"component start times ranked {ranks} ({'one unset' if none_at is not None else 'all set'}): returns {got!r}, the earliest is {want!r}"
+    it = FinamInterp(repo, Order())
+    o = Obj(label="C", markers={"component"})
+    o.fields.update(time=None, name="C")
+    try:
+        it.run(f, [[o]])
+        worst = worst or "no component has a start time and no error is raised"
+    except Raised as r:
+        if r.name != "ValueError":
+            worst = worst or f"raises {r.name}"
+    sink.check(worst is None, "R06", "composition-start-time", f, ok=f"{n} cases: the earliest component start is taken, unset times are skipped", bad=worst or "")
